@@ -15,7 +15,8 @@
 
     monitors on IMPLEMENTATION observations (the property's own predicates)
       10  a module's ValidateGenesis rejects the document the module exported
-      11  InitChain of a fresh application from the exported state fails
+      11  the export of a reachable state is not importable: InitChain of a fresh application from it fails
+          (export-of-reachable-state-not-importable)
       12  E2 differs from E1 in more than current_epoch_start_height
       13  the raw JSON of a module differs between E1 and E2 (beyond that field) -- Go-side comparison
       14  a query answers differently on the re-imported chain
